@@ -33,6 +33,7 @@ func runC13Gaps2(c *eng.Ctx) {
 	c13gTxnLayers(c)
 	c13gSeekNotCleaned(c)
 	c13gFileKeyEncoding(c)
+	c13gCursorStep(c)
 }
 
 // ---- file backend: sort, then skip the element equal to 'after', then cut to a positive limit
@@ -1044,4 +1045,117 @@ func c13gInmemWalk(c *eng.Ctx) *ssa.Function {
 	}
 	c.Unresolved(name + "$1")
 	return nil
+}
+
+// ---- the bolt cursor of a raft listing is moved exactly once per key examined:
+// every cursor move (Seek / Next / First / Last / Prev) is followed by the
+// loop's test of the key it returned before any other move — a re-positioning
+// inside the loop body followed by the post-statement's Next steps over the key
+// the cursor just landed on (seed C13-f).
+func c13gCursorStep(c *eng.Ctx) {
+	const movePat = `bbolt\.Cursor\)\.(Seek|Next|First|Last|Prev)$`
+	n := 0
+	for _, fn := range []string{"raft.listPageInner", "raft.(*RaftTransaction).ListPage"} {
+		f := c.Fn(fn)
+		if f == nil {
+			continue
+		}
+		c.Clause("R3", "C13.3")
+		moves := eng.Calls(f, movePat)
+		if !c.Floor(f, "cursor moves", len(moves), 2) {
+			continue
+		}
+		isMoveKey := func(v ssa.Value) bool {
+			e, ok := v.(*ssa.Extract)
+			if !ok || e.Index != 0 {
+				return false
+			}
+			for _, m := range moves {
+				if mv, isV := m.(ssa.Value); isV && e.Tuple == mv {
+					return true
+				}
+			}
+			return false
+		}
+		// the loop's test of the current key: k == nil on the value the moves produce
+		var tests []ssa.Instruction
+		keyPhi := map[ssa.Value]bool{}
+		for _, b := range f.Blocks {
+			iff := eng.IfOf(b)
+			if iff == nil {
+				continue
+			}
+			bo, ok := iff.Cond.(*ssa.BinOp)
+			if !ok || !(bo.Op == token.EQL || bo.Op == token.NEQ) {
+				continue
+			}
+			for _, side := range [][2]ssa.Value{{bo.X, bo.Y}, {bo.Y, bo.X}} {
+				if !eng.IsNilConst(side[1]) {
+					continue
+				}
+				fed := isMoveKey(side[0])
+				if phi, isPhi := side[0].(*ssa.Phi); isPhi {
+					for _, e := range phi.Edges {
+						if isMoveKey(e) {
+							fed = true
+						}
+					}
+				}
+				if fed {
+					tests = append(tests, iff)
+					keyPhi[side[0]] = true
+				}
+			}
+		}
+		site := "order{every cursor move is followed by the loop's test of the key it returned before the next move}"
+		if len(tests) == 0 {
+			c.Undecided(f, site, moves[0].Pos(), "the loop's nil test of the cursor key was not found (moved?): the rule cannot be evaluated")
+			continue
+		}
+		n++
+		bad := false
+		for _, m := range moves {
+			// the key the move returns is the one the loop examines
+			used := false
+			if mv, isV := m.(ssa.Value); isV && mv.Referrers() != nil {
+				for _, r := range *mv.Referrers() {
+					if e, isE := r.(*ssa.Extract); isE && e.Index == 0 && e.Referrers() != nil {
+						for _, rr := range *e.Referrers() {
+							if phi, isPhi := rr.(*ssa.Phi); isPhi && keyPhi[phi] {
+								used = true
+							}
+							if bo, isB := rr.(*ssa.BinOp); isB && keyPhi[ssa.Value(e)] && (bo.X == ssa.Value(e) || bo.Y == ssa.Value(e)) {
+								used = true
+							}
+						}
+					}
+				}
+			}
+			if !used {
+				bad = true
+				c.Violation(f, site, m.Pos(), "the key returned by "+eng.CalleeName(m.Common())+" is not the one the loop goes on to examine: the cursor is re-positioned behind the loop's back and the post-statement's Next steps over the key it landed on", nil)
+				continue
+			}
+			if h := eng.Reach(eng.Query{Fn: f, StartAfter: m, Barriers: tests, Target: func(in ssa.Instruction) bool {
+				ci, ok := in.(ssa.CallInstruction)
+				if !ok {
+					return false
+				}
+				for _, o := range moves {
+					if o == ci {
+						return true
+					}
+				}
+				return false
+			}}); h != nil {
+				bad = true
+				c.Violation(f, site, h.Instr.Pos(), "after "+eng.CalleeName(m.Common())+" another cursor move is reachable before the key was examined: a key is skipped and the page is not the corresponding slice of the full listing", h.Witness)
+			}
+		}
+		if !bad {
+			c.OK(f, site, moves[0].Pos(), fmt.Sprintf("%d cursor move(s), each followed by the loop test before any other move", len(moves)))
+		}
+	}
+	c.Clause("R3", "C13.3")
+	c.Floor(nil, "raft listings with a cursor loop", n, 2)
 }
